@@ -448,6 +448,15 @@ func refBases() []refBase {
 type refSys struct {
 	base refBase
 	ops  []refOp
+	// snap: NewValue is called after every accepted builder call (not only after the last one) and
+	// every value so obtained is kept: it must keep printing the same while the builder is used on
+	snap bool
+}
+
+type keptValue struct {
+	v   cty.Value
+	str string
+	by  string
 }
 
 func (s *refSys) NumOps() int         { return len(s.ops) }
@@ -466,6 +475,7 @@ type refInst struct {
 	m       *refModel
 	dead    bool
 	last    cty.Value
+	kept    []keptValue
 }
 
 func (in *refInst) Apply(op int, check bool, report func(site, shape, detail string)) bool {
@@ -528,6 +538,21 @@ func (in *refInst) Apply(op int, check bool, report func(site, shape, detail str
 		return true
 	}
 	in.m = nm
+	if in.sys.snap {
+		if check {
+			for _, k := range in.kept {
+				if now := goStr(k.v); now != k.str {
+					report("earlier-value-changed", in.sys.base.name+" / "+opKind(o.name), fmt.Sprintf("the value built by NewValue after %s printed %s; after the later builder call %s it prints %s", k.by, k.str, o.name, now))
+				}
+			}
+		} else if !mustReject {
+			func() {
+				defer func() { recover() }()
+				v := in.b.NewValue()
+				in.kept = append(in.kept, keptValue{v, goStr(v), o.name})
+			}()
+		}
+	}
 	if !check {
 		return true
 	}
@@ -749,6 +774,10 @@ func runC05(c *Ctx) {
 			}
 		}
 		exploreE2(c, &refSys{base: base, ops: ops}, depth, "refine.")
+		if !m.baseKnown && m.kind != 'd' {
+			// the same histories with a value built (and kept) after every call
+			exploreE2(c, &refSys{base: base, ops: ops, snap: true}, depth-1, "refine[kept].")
+		}
 	}
 	c05Prefixes(c)
 }
